@@ -342,6 +342,37 @@ def check(run):
                     run.fail('compose-mapped-once', '%s (n=%d, map_step %d then %d): the second mapper was called on %r, expected each of %r once' % (shape, n, ms1, ms2, ncalls, sorted(refsrc)), rp)
             except Exception as e:
                 run.fail('compose-raises', '%s raised %r (n=%d, map_step %d then %d)' % (shape, e, n, ms1, ms2), rp)
+    # ---------------- mappers / reducers of the same name in two modules, on equal inputs, in one store: each call gets its own function's values
+    from jugverif import jf_c17b as F2
+    for n, ms in itertools.product([1, 3, 4, 7] if quick else range(1, 12), [1, 2, 3] if quick else [1, 2, 3, 4, 5]):
+        for tg in (False, True):
+            jugenv.reset()
+            del F.CALLS[:]
+            del F2.CALLS[:]
+            xs = list(range(n))
+            rp = {'kind': 'same-name-mappers', 'n': n, 'ms': ms, 'tg': tg}
+            run.case(('same-name', n, ms, tg), nontrivial=n > ms)
+            run.count('same_name_mapper_cases')
+            try:
+                from jug.mapreduce import map as jmap, mapreduce as jmr
+                ma = jmap(F.tg_f21 if tg else F.f21, xs, map_step=ms)
+                mb = jmap(F2.tg_f21 if tg else F2.f21, xs, map_step=ms)
+                ra = jmr(F.tg_cat if tg else F.cat, F.tg_wrap if tg else F.wrap, xs, map_step=ms, reduce_step=2)
+                rb = jmr(F2.tg_cat if tg else F2.cat, F2.tg_wrap if tg else F2.wrap, xs, map_step=ms, reduce_step=2)
+                jugenv.run_all()
+                va, vb, wa, wb = value(ma), value(mb), value(ra), value(rb)
+            except Exception as e:
+                run.fail('same-name-raises', 'map / mapreduce with same-named functions of two modules raised %r (n=%d map_step=%d taskgen=%s)' % (e, n, ms, tg), rp)
+                continue
+            ea, eb = [2 * x + 1 for x in xs], [5 * x for x in xs]
+            fa = functools.reduce(lambda a, b: a + b, [[x] for x in xs])
+            fb = functools.reduce(lambda a, b: b + a, [['b', x] for x in xs])
+            if va != ea or vb != eb:
+                run.fail('same-name-map-value', 'map(jf_c17.f21, xs) and map(jf_c17b.f21, xs) in one store (n=%d, map_step=%d, task generators: %s) give %r and %r; [m(x) for x in xs] gives %r and %r'
+                         % (n, ms, tg, va, vb, ea, eb), rp)
+            elif wa != fa or wb != fb:
+                run.fail('same-name-mapreduce-value', 'mapreduce with jf_c17.cat/wrap and with jf_c17b.cat/wrap in one store (n=%d, map_step=%d, task generators: %s) give %r and %r; functools.reduce gives %r and %r'
+                         % (n, ms, tg, wa, wb, fa, fb), rp)
     # ---------------- None and falsy values among the mapped / reduced values; reducers for which None is not neutral
     for n, ms, rs in itertools.product([1, 2, 3, 4, 6, 9] if quick else range(1, 14), [1, 2, 3] if quick else [1, 2, 3, 4, 5], [2, 3] if quick else [2, 3, 4, 5]):
         xs = list(range(n))
